@@ -33,12 +33,20 @@ CmdOpts == {<<"-bin">>, <<"-disasm">>, <<"-msp430">>, <<"-avr8">>, <<"-bogus_q">
 Files == {"", "t.hex", "missing_q.hex", "t.bin"}
 CmdLines(n) == IF n = 1 THEN {[opts |-> <<a>>, file |-> f] : a \in CmdOpts, f \in Files}
                ELSE {[opts |-> <<a, b>>, file |-> f] : a \in CmdOpts, b \in CmdOpts, f \in Files}
+\* histories of long texts: the command line and the asm block are kept in strings that live for the whole session and
+\* are emptied between uses; @Wn@ stands for write arguments of n characters, @Rn@ for n source lines
+LongItems == {[cmd |-> "write", arg |-> "@W300@"], [cmd |-> "write", arg |-> "@W1100@"], [cmd |-> "print", arg |-> "0-4"],
+              [cmd |-> "asm", arg |-> "0x200", body |-> <<"@L300@">>, closed |-> TRUE],
+              [cmd |-> "asm", arg |-> "0x300", body |-> <<"@R40@">>, closed |-> TRUE],
+              [cmd |-> "asm", arg |-> "", body |-> <<>>, closed |-> TRUE]}
+LongCases == UNION {[1..n -> LongItems] : n \in 2..3}
 VARIABLE s
 SInit == s = <<>>
 SNext == Len(s) < MaxCmds /\ \E cm \in Cmds, a \in Args : s' = Append(s, [cmd |-> cm, arg |-> a])
 SEmit == s = <<>> \/ PrintT("CASE " \o ToJson(s))
 \* one-command sessions under every ending, and the asm blocks
 SEmitCmd == (s = <<>>) => (PrintT("CMDL " \o ToJson(CmdLines(1))) /\ PrintT("CMDL " \o ToJson(CmdLines(2))))
+SEmitLong == (s = <<>>) => PrintT("LONG " \o ToJson(LongCases))
 SEmitEnds == (Len(s) = 1 => \A e \in Ends : PrintT("ENDS " \o ToJson([cmds |-> s, end |-> e])))
              /\ (s = <<>> => \A c \in AsmCases, e \in Ends : PrintT("ENDS " \o ToJson([cmds |-> <<c>>, end |-> e])))
 =============================================================================
